@@ -1,0 +1,55 @@
+#pragma once
+// Guard against exhausting the C++ stack.
+//
+// The parser is recursive descent and the evaluator walks the AST recursively,
+// so the C++ stack depth follows the nesting depth of the input (parentheses,
+// blocks, generic types, operator chains) and the recursion depth of user
+// functions. Instead of counting levels (frames differ in size by a factor of
+// ten between functions and between optimised and instrumented builds) the
+// guard measures the stack that is really in use and reports an error while
+// there is still room to report it.
+#include <cstddef>
+#include <sys/resource.h>
+
+namespace cb_stack_guard {
+
+// bytes of stack the interpreter may use: the soft RLIMIT_STACK (at most
+// 1 GiB, 8 MiB if unknown) minus a reserve of 1/8 (at least 512 KiB) for the
+// frames below a check, the diagnostic and exception unwinding
+inline size_t budget() {
+    static const size_t value = [] {
+        size_t limit = static_cast<size_t>(8) << 20;
+        struct rlimit rl;
+        if (getrlimit(RLIMIT_STACK, &rl) == 0) {
+            const rlim_t cap = static_cast<rlim_t>(1) << 30;
+            if (rl.rlim_cur == RLIM_INFINITY || rl.rlim_cur > cap) {
+                limit = static_cast<size_t>(cap);
+            } else if (rl.rlim_cur >= (static_cast<rlim_t>(1) << 20)) {
+                limit = static_cast<size_t>(rl.rlim_cur);
+            } else {
+                limit = static_cast<size_t>(1) << 20;
+            }
+        }
+        size_t reserve = limit / 8;
+        if (reserve < (static_cast<size_t>(512) << 10)) {
+            reserve = static_cast<size_t>(512) << 10;
+        }
+        return limit - reserve;
+    }();
+    return value;
+}
+
+// true when the calling thread has used more stack than budget() since the
+// shallowest point at which exhausted() was called on it
+inline bool exhausted() {
+    static thread_local const char *base = nullptr;
+    const char *here =
+        static_cast<const char *>(__builtin_frame_address(0));
+    if (base == nullptr || here > base) {
+        base = here; // the stack grows downwards: a higher address is shallower
+        return false;
+    }
+    return static_cast<size_t>(base - here) > budget();
+}
+
+} // namespace cb_stack_guard
